@@ -549,7 +549,6 @@ theorem slerpShortestArc_unit {α : Type} [Field α] [LinearOrder α] [IsStrictO
     UnitQ (Gen.C10.Quat.slerpShortestArc teps sqrt sin atan2 q1 q2 t) := by
   rw [slerpShortestArc_eq]; split_ifs <;> exact slerp_unit teps sqrt sin atan2 hsqrt _ _ t
 
-set_option maxHeartbeats 1000000 in
 theorem intermediate_unit {α : Type} [Field α] [LinearOrder α] [IsStrictOrderedRing α] (tmin tmax : α)
     (sqrt sin cos acos : α → α) (hsqrt : SqrtSpec sqrt) (q0 q1 q2 : Quat α) :
     UnitQ (Gen.C10.Quat.intermediate tmin tmax sqrt sin cos acos q0 q1 q2) := by
@@ -646,6 +645,20 @@ theorem spline_keys {α : Type} [Field α] [LinearOrder α] [IsStrictOrderedRing
   exact squad_keys teps sqrt sin atan2 hsqrt q1 _ _ q2 h1 h2
     (intermediate_unit tmin tmax sqrt sin cos acos hsqrt q0 q1 q2)
     (intermediate_unit tmin tmax sqrt sin cos acos hsqrt q1 q2 q3) h12 hab h1a h2b
+
+/-- over ℝ with the real functions the hypotheses of `spline_keys` reduce to "no two slerp arguments antipodal"
+(qa, qb are the two intermediates; they are unit by `intermediate_unit`) -/
+theorem spline_keys_real (tmin tmax teps : ℝ) (hteps : 0 < teps) (q0 q1 q2 q3 : Quat ℝ) (h1 : UnitQ q1) (h2 : UnitQ q2)
+    (h12 : q1 ≠ Gen.C10.Quat.neg q2)
+    (hab : Gen.C10.Quat.intermediate tmin tmax Real.sqrt Real.sin Real.cos Real.arccos q0 q1 q2 ≠
+      Gen.C10.Quat.neg (Gen.C10.Quat.intermediate tmin tmax Real.sqrt Real.sin Real.cos Real.arccos q1 q2 q3))
+    (h1a : q1 ≠ Gen.C10.Quat.neg (Gen.C10.Quat.intermediate tmin tmax Real.sqrt Real.sin Real.cos Real.arccos q0 q1 q2))
+    (h2b : q2 ≠ Gen.C10.Quat.neg (Gen.C10.Quat.intermediate tmin tmax Real.sqrt Real.sin Real.cos Real.arccos q1 q2 q3)) :
+    Gen.C10.Quat.spline tmin tmax teps Real.sqrt Real.sin Real.cos Real.arccos ratan2 q0 q1 q2 q3 0 = q1 ∧
+    Gen.C10.Quat.spline tmin tmax teps Real.sqrt Real.sin Real.cos Real.arccos ratan2 q0 q1 q2 q3 1 = q2 :=
+  spline_keys tmin tmax teps Real.sqrt Real.sin Real.cos Real.arccos ratan2 real_sqrt_spec q0 q1 q2 q3 h1 h2
+    (sinx_over_x_angle4D_ne_zero teps hteps _ _ h12) (sinx_over_x_angle4D_ne_zero teps hteps _ _ hab)
+    (sinx_over_x_angle4D_ne_zero teps hteps _ _ h1a) (sinx_over_x_angle4D_ne_zero teps hteps _ _ h2b)
 
 /-! ## `exp (log q) = q`, `setAxisAngle (axis q, angle q) = q` (over ℝ, with Real.arccos / sin / cos / sqrt / arg)
 
